@@ -455,6 +455,72 @@ func TestVerif_C02(t *testing.T) {
 			}
 		}
 	}
+	// name-shape family: for every name length 1..40 two names that differ only in their last
+	// byte (and, for lengths >= 2, two that differ only in their first), all on one dataset in
+	// dense storage, every name with its own value; then every second one deleted. A name index
+	// that does not see some byte of a name confuses exactly such siblings.
+	{
+		h := []vfOp{{Op: "mkds", Path: "/d", Type: "f64", Dims: []uint64{3}}}
+		np := len(h)
+		var names []string
+		for L := 1; L <= 40; L++ {
+			stem := strings.Repeat("calibration_", 4)[:L-1]
+			names = append(names, stem+"1", stem+"2")
+			if L >= 2 {
+				names = append(names, "x"+stem[:L-2]+"_", "y"+stem[:L-2]+"_")
+			}
+		}
+		vals := []string{"i32a", "i64", "f32", "s1", "u8", "i32b", "f64"}
+		for i, n := range names {
+			h = append(h, vfOp{Op: "attr", Path: "/d", Name: n, Value: vals[i%len(vals)]})
+		}
+		for i := 0; i < len(names); i += 2 {
+			h = append(h, vfOp{Op: "delattr", Path: "/d", Name: names[i]})
+		}
+		ex := vfRun(dir, nil, h, true)
+		r.Transitions(1)
+		r.Case("name-shapes")
+		model := map[string]string{}
+		for i, o := range h[np:] {
+			if ex.Errs[np+i] != nil {
+				continue
+			}
+			if o.Op == "attr" {
+				model[o.Name] = o.Value
+			} else {
+				delete(model, o.Name)
+			}
+		}
+		detail := map[string]any{"family": "name-shapes", "names": len(names), "model_size": len(model)}
+		problem := ""
+		if ex.Closed == nil {
+			problem = "file-unopenable"
+		} else if ob := ex.Closed.Get("/d"); ob == nil || ob.AttrErr {
+			problem = "attributes-unreadable"
+		} else {
+			got := map[string]vfAttr{}
+			for _, a := range ob.Attrs {
+				got[a.Name] = a
+			}
+			for n, kind := range model {
+				if a, ok := got[n]; !ok {
+					problem, detail["name"] = "missing", n
+				} else if m := vfAttrMatches(a, kind); m != "" {
+					problem, detail["name"] = "value-"+m, n
+				}
+			}
+			for n := range got {
+				if _, ok := model[n]; !ok {
+					problem, detail["name"] = "extra", n
+				}
+			}
+		}
+		if problem != "" {
+			r.Fail("name-shapes/"+problem, detail)
+		} else {
+			r.Outcome("name-shapes-ok")
+		}
+	}
 	// refused-write family: k compact attributes (k in {1,3,7}), in the creating session or a
 	// reopened one, then a write that is refused (a value no storage accepts, values just below
 	// the attribute heap's capacity, an oversized name), then every single follow-up of a small
